@@ -160,6 +160,33 @@ theorem optics_core_distance_index_independent (nbrs nbrs' : Nat → List Nat) (
 
 end optics
 
+/-- **OPTICS lists every sample exactly once**: no position occurs twice in the ordering and the
+positions listed are exactly `0..n-1` (hence the ordering has `n` entries).  Only `hrange` is needed;
+in particular the statement does not depend on the fuel of the seed loop. -/
+theorem optics_lists_each_once {D : Type} [LT D] [DecidableLT D]
+    (nbrs : Nat → List Nat) (dist : Nat → Nat → D) (mp n : Nat)
+    (hrange : ∀ i, ∀ j ∈ nbrs i, j < n) :
+    ((Optics.optics (some nbrs) dist mp n).map (·.index)).Nodup ∧
+    ∀ j, j ∈ (Optics.optics (some nbrs) dist mp n).map (·.index) ↔ j < n := by
+  obtain ⟨h, hall⟩ := Optics.foldl_LInv n nbrs dist mp hrange n (Nat.le_refl n)
+  refine ⟨h.nd, fun j => ?_⟩
+  show j ∈ List.map (·.index) ((List.range n).foldl (Optics.outerStep nbrs dist mp n) (Optics.init n)).out ↔ j < n
+  rw [h.mem j]
+  constructor
+  · intro hp
+    unfold Optics.isProcessed at hp
+    rw [← h.plen]
+    cases hg : ((List.range n).foldl (Optics.outerStep nbrs dist mp n) (Optics.init n)).processed[j]? with
+    | none => rw [hg] at hp; simp at hp
+    | some b => exact (List.getElem?_eq_some_iff.mp hg).1
+  · exact hall j
+
+example : (∀ i, ∀ j ∈ exNbrs i, j < 5) := by
+  intro i j h
+  match i with
+  | 0 | 1 | 2 | 3 | 4 => simp [exNbrs] at h; omega
+  | _ + 5 => simp [exNbrs] at h
+
 /-- non-vacuity (the witness of the fixed defect): samples `[0, 3, 0.5, 2.5, 1, 9, 9.5]` ×2 (so that the
 distances are naturals), tolerance 5.5, `min_points = 3`.  The linear search returns `[0, 2, 3, 4]` for
 sample 0, the trees `[0, 2, 4, 3]`; both give core distance 2 (= 1.0), unsorted reading gave 5. -/
